@@ -223,8 +223,8 @@ def run(tier):
   ck = Check('C19', tier)
   ck.prove('props/C19.v', gen_targets=[], extra=['harness/RunC19.vo'])
   rng = random.Random(ck.seed * 47 + 19)
-  n = 100 if tier == 'quick' else 1500
-  cases = degenerate_cases() + both_detectors_cases(8 if tier == 'quick' else 80) + [gen_case(rng, i) for i in range(n)]
+  n = common.sz(tier, 100, 1500)
+  cases = degenerate_cases() + both_detectors_cases(common.sz(tier, 8, 80)) + [gen_case(rng, i) for i in range(n)]
   res = common.pmap(_one, cases, chunksize=2)
   dist = {'with_noisy_geos': 0, 'with_outlier_dates': 0, 'fewer_than_4_geos': 0, 'custom_names': 0, 'rows_total': 0}
   terms = []
